@@ -69,7 +69,7 @@ func rbViewParts(b []byte) rbFile {
 	if err != nil {
 		return rbFile{kind: "bad"}
 	}
-	f := rbFile{kind: "parts"}
+	f := rbFile{kind: "parts", nparts: len(ps)}
 	for k, p := range ps {
 		for _, pt := range p.Tracks {
 			v := rbPT{part: k, id: int64(pt.ID), base: int64(pt.BaseTime)}
